@@ -106,11 +106,53 @@ def _fold(e, params, vs, pb, reads):
     raise Unsupported(f"operator {nt}")
 
 
+def _mentions_var(e, names):
+    st = [e]
+    while st:
+        n = st.pop()
+        if n.node_type == OK.VARIABLE_EXP and n.variable().name in names:
+            return True
+        st.extend(n.args)
+    return False
+
+
+def _var_fluents(e, names, params, vs, pb, out):
+    """Ground fluents (under the binding vs) of the fluent expressions in e that are addressed through one of the variables `names`."""
+    st = [e]
+    while st:
+        n = st.pop()
+        if n.node_type == OK.FLUENT_EXP and any(_mentions_var(a, names) for a in n.args):
+            try:
+                out.add((n.fluent().name, tuple(_fold(a, params, vs, pb, set()) for a in n.args)))
+            except Exception:
+                pass
+        st.extend(n.args)
+
+
+def _arith_fluents(e, out, params, pb):
+    """Ground fluents (outside quantifiers) whose argument list contains a compound expression, e.g. cell(i + 1)."""
+    st = [e]
+    while st:
+        n = st.pop()
+        if n.node_type in (OK.EXISTS, OK.FORALL):
+            continue
+        if n.node_type == OK.FLUENT_EXP and any(a.args and not a.is_fluent_exp() for a in n.args):
+            try:
+                out.add((n.fluent().name, tuple(_fold(a, params, {}, pb, set()) for a in n.args)))
+            except Exception:
+                pass
+        st.extend(n.args)
+
+
 def rw_sets(pb, action, args):
     """-> (reads, writes, info) for the ground instance; sets of (fluent_name, args tuple)."""
     params = {p.name: v for p, v in zip(action.parameters, args)}
     reads, writes = set(), set()
-    info = {"cond_reads": set(), "value_reads": set(), "pre_reads": set(), "quantified": False}
+    # forall_reads: ground fluents read by the condition / value of a forall effect through the quantified variable;
+    # arith_writes / arith_reads: ground fluents addressed with a compound (arithmetic) argument expression
+    info = {"cond_reads": set(), "value_reads": set(), "pre_reads": set(), "quantified": False, "forall_reads": set(), "arith_writes": set(), "arith_reads": set()}
+    for c in list(action.preconditions) + [x for eff in action.effects for x in (eff.condition, eff.value)]:
+        _arith_fluents(c, info["arith_reads"], params, pb)
     for c in action.preconditions:
         r = set()
         _fold(c, params, {}, pb, r)
@@ -137,6 +179,12 @@ def rw_sets(pb, action, args):
             _fold(eff.value, params, vs, pb, r)
             reads |= r
             info["value_reads"] |= r
+            if eff.forall:
+                info["quantified"] = True
+                through = set()
+                for x in (eff.condition, eff.value):
+                    _var_fluents(x, {v.name for v in eff.forall}, params, vs, pb, through)
+                info["forall_reads"] |= through & (info["cond_reads"] | info["value_reads"])
             targs = []
             for a in eff.fluent.args:
                 v = _fold(a, params, vs, pb, set())
@@ -145,6 +193,8 @@ def rw_sets(pb, action, args):
                 targs.append(v)
             key = (eff.fluent.fluent().name, tuple(targs))
             writes.add(key)
+            if any(a.args and not a.is_fluent_exp() for a in eff.fluent.args):
+                info["arith_writes"].add(key)
             if not eff.is_assignment():
                 reads.add(key)  # increase / decrease read their own target
     return reads, writes, info
